@@ -88,6 +88,14 @@ class TreeGen:
             o = self.node(kind, r.choice(LAYOUTS))
             for _ in range(r.choice([0, 1, 2, 3, 4])):
                 o["children"].append(self.gen("l", d + 1))
+            if o["cls"] in ("QFormLayout", "QGridLayout", "MyGrid") and len(o["children"]) >= 2 and r.random() < 0.4:
+                # explicit cells that go BACKWARDS relative to the source order: the <item>s keep the source order all the same
+                ncol = 2 if o["cls"] == "QFormLayout" else 3
+                cells = [(i // ncol, i % ncol) for i in range(len(o["children"]))]
+                r.shuffle(cells)
+                for c, (row, col) in zip(o["children"], cells):
+                    if c["kind"] in ("widget", "layout", "spacer"):
+                        c["props"] = list(c["props"]) + ["QLayout.row: %d" % row, "QLayout.column: %d" % col]
         else:
             o = self.leaflike(kind, d)
         return o
